@@ -617,7 +617,7 @@ func ruleChunkMergeStep(c *Ctx, r *Rep, tier string) {
 		sr := symExec(fn, map[string]int64{})
 		p0 := ""
 		if len(fn.Params) > 0 {
-			p0 = fn.Params[0].Name()
+			p0 = paramKey(fn.Params[0])
 		}
 		ok := sr.Undec == "" && len(sr.RetKeys) == 1 && len(sr.Effects) == 0 &&
 			(sr.RetKeys[0] == p0 || sr.RetKeys[0] == p0+"[:len("+p0+")]" || sr.RetKeys[0] == p0+"[:]")
